@@ -207,6 +207,9 @@ class Evaluator:
         for c, seg in zip(batch, segs):
             if seg in c[3]:
                 self.note(c[2], False)
+                if len(seg) > 3 and not any('expanded' in x for x in self.samples):
+                    self.samples.append({'stratum': c[1], 'input': c[0], 'expected': cppref.render(c[2].tokens), 'observed': cppref.render(seg),
+                                         'expanded': True})
                 if not has_other(c[2]):
                     todo_e.append(c)
             else:
@@ -855,8 +858,8 @@ def main(chk):
                 over[k] = over.get(k, 0) + len(lst) - max(room, 0)
         for k, v in res['over'].items():
             over[k] = over.get(k, 0) + v
-        if len(samples) < 6:
-            samples.extend(res['samples'][:1])
+        if len(samples) < 8:
+            samples.extend(sorted(res['samples'], key=lambda x: 'expanded' not in x)[:2])
 
     def run_jobs(name, jobs):
         done = 0
